@@ -250,6 +250,8 @@ type World struct {
 	preferred  *vrt.Thread
 	batching   bool
 	bursted    bool
+	enabledAtKey []string
+	drainTimeouts bool // the last drain only converged (if at all) after letting request time-outs fire
 	slack      int64 // timing slack (ns) the oracles grant when a scheduling deviation delayed a thread
 	devSite    string // where the deviation of this execution was applied (thread + park site)
 	stopRequested  bool
